@@ -320,6 +320,9 @@ def mk_app(f, args=(), kw=()):
                 return mk_app("cat", (a, b))          # a+b on bytes == b"".join([a,b])
             if isinstance(a, TupleV) and isinstance(b, TupleV) and a.kind == b.kind:
                 return TupleV(a.items + b.items, a.kind)   # list/tuple concatenation
+            if isinstance(a, TupleV) and a.kind == "list" and len(a.items) == 1 and is_app(b, "slice") \
+                    and b.args[1:] == (Const(1), NONE, NONE) and any(is_app(x, "index") and x.args == (b.args[0], Const(0)) for x in subterms(a.items[0])):
+                return App("setitem", (b.args[0], Const(0), a.items[0]))   # [f(D[0])] + D[1:] == D with D[0] := f(D[0])
         if f in _COMMUTATIVE or (f == "Add" and ty_of(a) == "int" and ty_of(b) == "int"):
             if a._key > b._key:
                 args = (b, a)                          # commutative operators sorted
@@ -657,6 +660,11 @@ def mk_app(f, args=(), kw=()):
         if t in ("int", "bytes", "str", "bool", "tuple", "list", "dict", "float"):
             import builtins
             return Const(hasattr(getattr(builtins, t), args[1].v))
+    if f == "index" and n == 2 and is_app(args[0], "setitem") and isinstance(args[1], Const) and isinstance(args[0].args[1], Const):
+        base, kk, vv = args[0].args
+        if kk == args[1]:
+            return vv
+        return mk_app("index", (base, args[1]))
     if f == "index" and n == 2:
         o, k = args
         if isinstance(k, Const):
